@@ -10,6 +10,7 @@ implementation behaves as the model" carries them over — plus the facts, regen
 source on every run, that the refusal / no-op branches of the model are present in the code.
 -/
 import GoUtils.Proofs.Fs
+import GoUtils.Proofs.FsTerm
 import GoUtils.Generated.Fs
 import GoUtils.Verdict
 namespace GoUtils.Props.C06
@@ -57,6 +58,23 @@ theorem C06_copy_source_unchanged (fuel : Nat) (t : Tree) (src dest : Path) (sl 
   rcases copy_frame fuel t src dest sl r t' h q hdq with a | ⟨_, _, a3⟩
   · exact a
   · rw [under_trans hq a3] at h1; cases h1
+
+/-- "a call terminates", for Copy with source and destination apart from each other (neither a prefix of
+    the other): for EVERY tree, with fuel above the depth of the source subtree — here the total length of
+    the tree's paths + 1 — the model's copy returns an answer. Together with the two overlap theorems
+    below (source = destination: no-op; destination inside the source directory: refused at once) the only
+    case left without a termination theorem is a source that lies below the destination directory. -/
+theorem C06_copy_terminates_apart (t : Tree) (src dest : Path) (sl : Bool)
+    (h1 : under src dest = false) (h2 : under dest src = false) :
+    (copy (totalLen t + 1) t src dest sl).isSome = true :=
+  copy_returns t src dest sl ⟨h1, h2⟩
+
+/-- … and while it runs nothing at or below the source is added, altered or removed, even as a list of
+    entries (not only through `lookup`) -/
+theorem C06_copy_source_subtree_identical (fuel : Nat) (t : Tree) (src dest : Path) (sl : Bool) (r : Res) (t' : Tree)
+    (h : copy fuel t src dest sl = some (r, t')) (h1 : under src dest = false) (h2 : under dest src = false) :
+    sub t' src = sub t src :=
+  copy_sub fuel t src dest sl r t' h src ⟨h1, h2⟩
 
 /-- overlap, source = destination: nothing happens -/
 theorem C06_copy_onto_itself (fuel : Nat) (t : Tree) (p : Path) :
